@@ -247,7 +247,7 @@ def run(R):
               "Ambiguous = a value between the exact threshold and its float rounding. Non-trivial = m>=3.")
     R.assumptions = ["thresholds are the exact rationals of float(m ** (l/(k+1))) computed from the specification's formula",
                      "simulated values compared at relative 1e-12 (v/lambda is rounded once in floats)"]
-    run_items(R, gen_items(R, 6000 if R.thorough else 220))
+    run_items(R, gen_items(R, 6000 if R.thorough else 500))
 
 
 def replay(R, rep):
